@@ -255,7 +255,7 @@ claim('C05',
       'comma (never indexing past a bare-name reply) or None with err recorded; when a line '
       'arrives at the first read exactly one read is performed (a non-empty line is never read '
       'past). D5 with a '
-      'SerialException - and, separately, a plain OSError - injected at every port call no request method (about 35) lets an '
+      'SerialException - and, separately, a plain OSError - injected at every port call, and a UnicodeDecodeError at every decode of a reply, no request method (about 35) lets an '
       'exception escape. D6 a primitive that met a fault ends with err set (frozen exemption: '
       'rb/r/bl in command), every newly recorded error is reported by a failure return value, '
       'messages are non-empty. D7 None results of query/var_read/motors_query_enabled never '
@@ -500,8 +500,8 @@ def build():
         'not_applicable': na,
         'notes': 'Static analysis only: no repo code is imported or executed by any check; exit 0 '
                  '= all obligations discharged, exit 1 = VIOLATION lines, exit 2 = ANALYSIS-ERROR '
-                 '(cannot conclude; never a violation). Tiers: quick = all rules; thorough = deeper domains plus a mutation-adequacy audit recorded in the evidence (DESIGN.md 8.8). Seventeen genuine defects found by the rules '
-                 'were repaired by fix: commits in /repo (F1-F17; the former known finding K1 is part of F17); '
+                 '(cannot conclude; never a violation). Tiers: quick = all rules; thorough = deeper domains plus a mutation-adequacy audit recorded in the evidence (DESIGN.md 8.8). Eighteen genuine defects found by the rules '
+                 'were repaired by fix: commits in /repo (F1-F18; the former known finding K1 is part of F17); '
                  'none is left recorded rather than repaired. All are listed in '
                  '/verif/known_findings.json (DESIGN.md 4.1, 8.2).',
     }
